@@ -88,6 +88,31 @@ def print_case(args):
     return res
 
 
+def sequence_case(args):
+    """Worker: print every pool expression one after another in ONE interpreter (one process):
+    the text of each must be what it prints alone."""
+    (pool,) = args
+    from ..interp_ops import Interpreter
+    from ..interp import InterpRaise, Unsupported
+    model = load_model()
+    it = Interpreter(model, max_steps=30000000)
+    it.generic_only = True
+    it.reset_run([])
+    out = []
+    try:
+        objs = [build(it, t, {}) for t in pool]
+        for o in objs:
+            out.append(it.to_repr(o))
+        for o in reversed(objs):
+            it.to_str(o)
+        again = [it.to_repr(o) for o in objs]
+    except InterpRaise as r:
+        return {"status": "raised", "exc": exc_name(r.exc)}
+    except Unsupported as u:
+        return {"status": "unsupported", "reason": str(u)}
+    return {"status": "ok", "first": out, "again": again}
+
+
 def check(rep):
     model = load_model()
     pool = expression_pool(model, rep.tier)
@@ -135,6 +160,25 @@ def check(rep):
                    + f": {st}" + (f" ({r.get('reason') or r.get('rebuilt') or r.get('exc')})"
                                   if (r.get('reason') or r.get('rebuilt') or r.get('exc')) else ""))
             rep.violation("C13.echo", construct, where, msg, witness=r, witness_class=st)
+    # one process printing the whole pool: no text may depend on what was printed before
+    seq = sequence_case(([c[1] for c in cases if c[0] == "expr"],))
+    alone = [r.get("repr") for (c, r) in zip(cases, results) if c[0] == "expr"]
+    if seq["status"] == "unsupported":
+        rep.unknown("C13.sequence", "printing the pool in one process", "", seq["reason"])
+    elif seq["status"] == "raised":
+        rep.violation("C13.sequence", "printing the pool in one process", "", f"raised {seq['exc']}", witness_class="raised")
+    else:
+        bad = [(a, f, g) for a, f, g in zip(alone, seq["first"], seq["again"]) if a is not None and (a != f or a != g)]
+        if bad:
+            a, f, g = bad[0]
+            rep.violation("C13.sequence", "printing the pool in one process", "",
+                          f"an expression that prints as {a} on its own prints as {f if f != a else g} after other "
+                          f"expressions were printed in the same process ({len(bad)} such objects)",
+                          witness_class="text depends on what was printed before")
+        else:
+            rep.ok("C13.sequence", "printing the pool in one process", "",
+                   f"{len(alone)} expressions printed one after another (and again in reverse order): every text is "
+                   f"what the expression prints alone", cases=len(alone))
     for i in (3, 20, len(cases) - 1):
         rep.sample({"object": str(cases[i][1])[:120], "printed": results[i].get("repr")})
     from ..structure import check_field_agreement
